@@ -479,7 +479,10 @@ func (t *tOps) remove(fd storage.FileDesc) {
 		} else {
 			t.s.logf("table@remove removed @%d", fd.Num)
 		}
-		if t.evictRemoved && t.blockCache != nil {
+		if t.blockCache != nil {
+			// Always evict, even without BlockCacheEvictRemoved: the file
+			// number may be reused below, and blocks cached for the removed
+			// table must never be served for a new table with the same number.
 			t.blockCache.EvictNS(uint64(fd.Num))
 		}
 		// Try to reuse file num, useful for discarded transaction.
